@@ -257,6 +257,15 @@ async fn main() {
     session.refresh_metadata().await.expect("refresh");
     check(session.get_cluster_state().get_nodes_info().len() == 4, "driver sees the added node after NEW_NODE + refresh");
     wait_until("driver opened connections to the added node", || !cluster.connections(Some(idx)).is_empty()).await;
+    // ---- remove a node; DC-less / rack-less node ---------------------------------------------------------
+    cluster.remove_node(1, CutKind::Rst);
+    cluster.set_node_location(2, false, false);
+    cluster.push_event(None, wire::body_event_topology_change(false, cluster.ip(1), 9042));
+    session.refresh_metadata().await.expect("refresh after removal");
+    let st = session.get_cluster_state();
+    check(st.get_nodes_info().len() == 3, "driver dropped the removed node after refresh (4 -> 3 nodes)");
+    let n2 = st.get_nodes_info().iter().find(|n| n.address.ip() == cluster.ip(2)).cloned();
+    check(n2.is_some_and(|n| n.datacenter.is_none() && n.rack.is_none()), "node with null data_center / rack cells has no DC and no rack in the driver");
     drop(session);
     cluster.shutdown();
     println!("selftest passed");
